@@ -229,6 +229,121 @@ def judgeFault (inp obs : Json) : Except String Verdict := do
          nontrivial := kind != "none" && (fired || dir == ""),
          model := Json.mkObj [("class", cls.str), ("handled", Json.arr (e1.handled.map Json.str).toArray)] }
 
+/-! ### several faults in one request -/
+
+structure MF where
+  kind : String
+  dir : String
+  off : Nat
+
+def mfClass (f : MF) : Class :=
+  if f.kind == "none" || f.kind == "slow" then .ok else if f.kind == "herr" then .err else .dropped
+
+/-- does the request reach the handler -/
+def mfReached (f : MF) : Bool :=
+  !(f.kind == "kill-before" || f.kind == "stop-before" || ((f.kind == "cut" || f.kind == "stall") && f.dir == "r2p"))
+
+def judgeMulti (inp obs : Json) : Except String Verdict := do
+  let ev ← getNat inp "ev"
+  let T := getNatD inp "timeout_ms"
+  let slack := getNatD inp "slack_ms"
+  let fs ← (← getArr inp "faults").mapM fun j => do
+    pure ({ kind := ← getStr j "kind", dir := getStrD j "dir", off := getNatD j "off" } : MF)
+  let n := fs.length
+  let fail := getStrD obs "fail"
+  let kinds := fs.map (·.kind)
+  let cov0 := ["multi", s!"multi:n={n}", s!"ev:{ev}"] ++ (kinds.eraseDups.map ("multi:has:" ++ ·))
+  let where_ := s!"faults {kinds} on plugins a.. of {n}, event {ev}"
+  if fail == "crashed" || fail == "blocked" then
+    return { agree := false, spec := false, sig := s!"C07:{fail}:multi", cover := fail :: cov0, nontrivial := true,
+             why := s!"{where_}: the runtime process {fail}: {getStrD obs "panic"}" }
+  if fail != "" then
+    return { agree := false, spec := true, why := s!"harness: {fail}", cover := "harness-fail" :: cov0 }
+  let warm ← decRObs (← getObj obs "warm")
+  let flt ← decRObs (← getObj obs "fault")
+  let nxt ← decRObs (← getObj obs "next")
+  let sp := specs n
+  let names (o : RObs) := o.log.map (·.p)
+  let itemsOf (l : List PSpec) (rid : String) := showItems (l.flatMap fun p => contrib p ev rid)
+  if names warm != sp.map (·.name) || warm.res.err != "" || warm.res.items != itemsOf sp "warm." then
+    return { agree := false, spec := true, cover := "warmup-failed" :: cov0,
+             why := s!"{where_}: warm-up request not clean: {names warm} {warm.res.err} {warm.res.items}" }
+  let pf := sp.zip fs
+  -- ---- model
+  let ps0 : List Plugin := sp.foldl (fun ps s => activate ps (mkPlugin s)) []
+  let callOf (rid : String) (useFault : Bool) (p : Plugin) : Call C06.Items :=
+    let s := C06.specOf sp p.id
+    match (pf.find? (·.1.id == p.id)).map (·.2) with
+    | some f =>
+      if useFault then faultyCall s ev rid (mfClass f) (mfReached f) T (f.kind == "hang" || f.kind == "stall")
+      else { out := .ok (contrib s ev rid), reached := true, cost := 0 }
+    | none => { out := .ok (contrib s ev rid), reached := true, cost := 0 }
+  let run (ps : List Plugin) (rid : String) (useFault : Bool) : Expect :=
+    let (res, tr, after) := request merger T ev (ps.map fun p => (p, callOf rid useFault p))
+    let handled := tr.handled.map (U ·.name)
+    match res with
+    | .ok items => { handled, err := "", items, isNil := !hasReply ev, after }
+    | .error _ => { handled, err := "error", items := [], isNil := true, after }
+  let e1 := run ps0 "fault" true
+  -- plugins closed before the request stay dead even if the loop never got to them
+  let deadBefore := (pf.filter fun (_, f) => f.kind == "kill-before" || f.kind == "stop-before").map (·.1.id)
+  let ps2 := deadBefore.foldl (fun ps id => disconnect ps id) e1.after
+  let e2 := run ps2 "next." false
+  let dis := cmp "request under test" e1 flt <|> cmp "following request" e2 nxt
+  -- ---- the property on the observation
+  let bad (sig why : String) : Option (String × String) := some ("multi:" ++ sig, s!"{where_}: {why}")
+  let bound := n * T + slack
+  let mut spf : Option (String × String) := none
+  if flt.wall > bound then spf := spf <|> bad "too-slow" s!"the request took {flt.wall} ms (bound {n}×{T}+{slack})"
+  if nxt.wall > bound then spf := spf <|> bad "next-too-slow" s!"the following request took {nxt.wall} ms"
+  let idxOfName (nm : String) : Nat := (sp.find? (·.name == nm)).map (fun s => C06.idxNum s.idx) |>.getD 999
+  let ordered (o : RObs) : Bool := C06.dupFree (names o) && C06.nondecreasing ((names o).map idxOfName)
+  if !ordered flt || !ordered nxt then spf := spf <|> bad "order" s!"invocations {names flt} then {names nxt}"
+  if flt.log.any (fun i => i.r != "fault" || i.e != ev) || nxt.log.any (fun i => i.r != "next." || i.e != ev) then
+    spf := spf <|> bad "foreign-request" "a handler saw another request"
+  let firstErr := pf.find? fun (_, f) => f.kind == "herr"
+  let okOnes := (pf.filter fun (_, f) => mfClass f == .ok).map (·.1)
+  match firstErr with
+  | some (h, _) =>
+    -- a handler error: the request fails with it; everybody healthy before it was invoked, nobody behind it
+    if flt.res.err != "veto" || flt.res.vetoBy != h.name || flt.res.vetoReq != "fault" then
+      spf := spf <|> bad "error-lost" s!"handler error of {h.name} not returned: '{flt.res.err}' {flt.res.errtext}"
+    if !flt.res.isNil || !flt.res.items.isEmpty then spf := spf <|> bad "partial-result" s!"a failed request returned {flt.res.items}"
+    let mustBefore := ((pf.filter fun (s, f) => s.id < h.id && mfClass f == .ok).map (·.1.name)) ++ [h.name]
+    if !(mustBefore.all (names flt).contains) then spf := spf <|> bad "missed" s!"invoked {names flt}, expected at least {mustBefore}"
+    if (names flt).any (fun nm => idxOfName nm > C06.idxNum h.idx) then
+      spf := spf <|> bad "continued" s!"plugins behind the failing handler were invoked: {names flt}"
+    -- afterwards: who failed in transport before it, or was closed beforehand, is gone; the rest answer
+    let gone := (pf.filter fun (s, f) => (mfClass f == .dropped && s.id < h.id) ||
+      f.kind == "kill-before" || f.kind == "stop-before").map (·.1)
+    let alive := sp.filter fun s => !gone.any (·.id == s.id)
+    if nxt.res.err != "" then spf := spf <|> bad s!"next-failed:{nxt.res.err}" s!"the following request failed: {nxt.res.errtext}"
+    else
+      if names nxt != alive.map (·.name) then spf := spf <|> bad "next-invocations" s!"following request invoked {names nxt}, expected {alive.map (·.name)}"
+      if nxt.res.items != itemsOf alive "next." then spf := spf <|> bad "next-contributions" s!"following reply {nxt.res.items}"
+  | none =>
+    if flt.res.err != "" then spf := spf <|> bad s!"request-failed:{flt.res.err}" s!"the request failed: {flt.res.errtext}"
+    else
+      if flt.res.items != itemsOf okOnes "fault" then
+        spf := spf <|> bad "contributions" s!"reply {flt.res.items}, expected {itemsOf okOnes "fault"}"
+      if !((okOnes.map (·.name)).all (names flt).contains) then spf := spf <|> bad "healthy-not-invoked" s!"invoked {names flt}"
+    if nxt.res.err != "" then spf := spf <|> bad s!"next-failed:{nxt.res.err}" s!"the following request failed: {nxt.res.errtext}"
+    else
+      if names nxt != okOnes.map (·.name) then
+        spf := spf <|> bad "invoked-again" s!"following request invoked {names nxt}, expected {okOnes.map (·.name)}"
+      if nxt.res.items != itemsOf okOnes "next." then spf := spf <|> bad "next-contributions" s!"following reply {nxt.res.items}"
+  let nTimeouts := (pf.filter fun (_, f) => f.kind == "hang" || f.kind == "stall").length
+  pure { agree := dis.isNone, spec := spf.isNone,
+         why := match spf, dis with
+           | some (_, w), _ => w
+           | none, some w => s!"{where_}: {w}"
+           | none, none => "",
+         sig := match spf with | some (s, _) => "C07:" ++ s | none => "",
+         cover := cov0 ++ [s!"multi:timeouts={nTimeouts}", s!"retries:{getNatD obs "retries"}"] ++
+                  (if firstErr.isSome then ["multi:veto"] else ["multi:no-veto"]),
+         nontrivial := kinds.any (· != "none"),
+         model := Json.mkObj [("handled", Json.arr (e1.handled.map Json.str).toArray)] }
+
 def judgeCalib (inp obs : Json) : Except String Verdict := do
   let fail := getStrD obs "fail"
   let ev ← getNat inp "ev"
@@ -249,6 +364,7 @@ def judge (j : Json) : Except String Verdict := do
   match getStrD inp "kind" with
   | "fault" => judgeFault inp obs
   | "calib" => judgeCalib inp obs
+  | "multi" => judgeMulti inp obs
   | k => throw s!"unknown case kind {k}"
 
 def main : IO UInt32 := runLines judge
